@@ -439,6 +439,17 @@ fn dump_tracker(o: &Opts, idx: usize, beh: &Value) -> Value {
         steps.push(out);
     }
     let mut res = json!({"steps": steps});
+    // epilogue of every script: what the tracker holds after the last call (live tracks, then everything wasted() hands out)
+    let active: usize = t.stats().iter().sum();
+    let mut ws: Vec<(u64, usize, usize)> = match &mut t.t {
+        Tr::Sort(x) => x.wasted().into_iter().map(WastedSortTrack::from).map(|w| (w.scene_id, w.epoch, w.length)).collect(),
+        Tr::BSort(x) => x.wasted().into_iter().map(WastedSortTrack::from).map(|w| (w.scene_id, w.epoch, w.length)).collect(),
+        Tr::Vis(x) => x.wasted().into_iter().map(WastedVisualSortTrack::from).map(|w| (w.scene_id, w.epoch, w.length)).collect(),
+        Tr::BVis(x) => x.wasted().into_iter().map(WastedVisualSortTrack::from).map(|w| (w.scene_id, w.epoch, w.length)).collect(),
+    };
+    ws.sort();
+    let after: usize = t.stats().iter().sum();
+    res["final"] = json!({"active": active, "wasted": ws.iter().map(|w| json!([w.0, w.1, w.2])).collect::<Vec<_>>(), "active_after": after});
     if o.str("probe", "0") == "1" {
         res["probe"] = probe(&mut t);
     }
